@@ -548,7 +548,12 @@ func (w *writer) para(x *wpmodel.XW, name string, kv []string, p wpmodel.Para, b
 func (w *writer) tbl(x *wpmodel.XW, t *wpmodel.Table, idx int) {
 	name := "Table" + strconv.Itoa(idx+1)
 	x.Open(w.table+":table", w.table+":name", name)
-	if w.o.ColumnsRepeated && t.Cols > 1 {
+	if w.o.ColumnsRepeated && t.Cols > 2 && idx%2 == 1 {
+		// a repeated declaration for all columns but the last, which has one of its own (as when the last column
+		// differs in width)
+		x.Empty(w.table+":table-column", w.table+":number-columns-repeated", strconv.Itoa(t.Cols-1))
+		x.Empty(w.table + ":table-column")
+	} else if w.o.ColumnsRepeated && t.Cols > 1 {
 		x.Empty(w.table+":table-column", w.table+":number-columns-repeated", strconv.Itoa(t.Cols)) // §9.1.6, §19.675
 	} else {
 		for c := 0; c < t.Cols; c++ {
